@@ -63,7 +63,17 @@ class CallGraph:
                     elif r and r[0] == "ext":
                         self.resolved += 1
                     else:
-                        cands = [g for g in self.by_name.get(fn.attr, []) if g.cls is not None or g.parent is None]
+                        # class-hierarchy analysis by method name; module-level functions are only
+                        # reachable through resolved names (handled above)
+                        cands = [g for g in self.by_name.get(fn.attr, []) if g.cls is not None]
+                        if isinstance(fn.value, ast.Name) and fn.value.id in ("self", "cls"):
+                            owner = f
+                            while owner.cls is None and owner.parent is not None:
+                                owner = owner.parent
+                            if owner.cls is not None:
+                                rel = self._related(owner.cls)
+                                narrowed = [g for g in cands if g.cls.fq in rel]
+                                cands = narrowed or cands
                         if cands:
                             self.resolved += 1
                             for g in cands:
@@ -77,6 +87,15 @@ class CallGraph:
                 elif r and r[0] == "class":
                     self._ctor(r[1], out)
         return out
+
+    def _related(self, ci) -> set[str]:
+        if not hasattr(self, "_rel"):
+            self._rel = {}
+        if ci.fq not in self._rel:
+            anc = {c.fq for c in self.interp.mro(ci)}
+            desc = {c.fq for c in self.repo.all_classes() if ci.fq in {x.fq for x in self.interp.mro(c)}}
+            self._rel[ci.fq] = anc | desc
+        return self._rel[ci.fq]
 
     def _ctor(self, ci, out):
         for c in self.interp.mro(ci):
@@ -124,14 +143,14 @@ class CallGraph:
         self._cl = out
         return out
 
-    def reachable(self, roots: list[str]) -> set[str]:
+    def reachable(self, roots: list[str], all_live: bool = False) -> set[str]:
         """Rapid type analysis: a method found only by name (class-hierarchy
         analysis) is followed only if its class, or a subclass, is referenced by
         already-reachable code."""
         loads = self._class_loads()
         classes = {c.fq: c for c in self.repo.all_classes()}
         anc = {fq: {x.fq for x in self.interp.mro(c)} for fq, c in classes.items()}
-        live_classes: set[str] = set()
+        live_classes: set[str] = set(classes) if all_live else set()
         seen: set[str] = set()
         pending: set[str] = set()  # method candidates waiting for their class to become live
         stack = [(r, True) for r in roots]
